@@ -101,12 +101,14 @@ InjBy(ip, lmode, mmode) ==
         sec \in {"an", "ns", "ad"}, w \in {"any", "A"}, p \in {x \in Payloads(ip, lmode, mmode) : x # {}}}
 Injections(lmode, mmode) == {{}} \cup UNION {InjBy(ip, lmode, mmode) : ip \in {"a2", "a4", "a5", "a6"}}
 
+\* parameter tuples <<lmode, mmode, tmode, inj, denyS, denyA>> and the internet each stands for
+NetOfParams(p) == Net(p[1], p[2], p[3], p[4], p[5], p[6])
 \* hostile servers, no filters
-HostileNets(LM, MM, TM) ==
-    UNION {{Net(lm, mm, tm, inj, {}, {}) : tm \in TM, inj \in Injections(lm, mm)} : lm \in LM, mm \in MM}
+HostileParams(LM, MM, TM) ==
+    UNION {{<<lm, mm, tm, inj, {}, {}>> : tm \in TM, inj \in Injections(lm, mm)} : lm \in LM, mm \in MM}
 \* filters, honest servers
-FilterNets(LM, MM, TM) ==
-    {Net(lm, mm, tm, {}, ds, da) : lm \in LM, mm \in MM, tm \in TM, ds \in {{}, {"a4"}, {"a5"}, {"a6"}}, da \in {{}, {"h1"}, {"h3"}}}
+FilterParams(LM, MM, TM) ==
+    {<<lm, mm, tm, {}, ds, da>> : lm \in LM, mm \in MM, tm \in TM, ds \in {{}, {"a4"}, {"a5"}, {"a6"}}, da \in {{}, {"h1"}, {"h3"}}}
 
 TheQuestion == {[qn |-> H("w", L1), qt |-> "A"]}
 =============================================================================
